@@ -48,6 +48,29 @@ def _run_cases(chunk):
     return res
 
 
+def _corrupt(rows, kind):
+    '''binding demonstration (PV_C18_CORRUPT=<kind>): falsify recorded fields of
+    every 97th wrapped case; the check must then report violations.
+    drop-char: one character of the second output line disappears (in out and
+    out2 alike); out2: the second pass is recorded with a changed first line;
+    raised: the case is recorded as having raised.'''
+    n = 0
+    for r in rows:
+        if r[2] or len(r[4]) < 2 or len(r[4][1]) < 8 or r[0] % 97:
+            continue
+        n += 1
+        if kind == "drop-char":
+            r[4] = [r[4][0], r[4][1][:6] + r[4][1][7:]] + r[4][2:]
+            r[6] = list(r[4])
+        elif kind == "out2":
+            r[6] = [r[6][0] + " "] + r[6][1:]
+        elif kind == "raised":
+            r[2], r[4], r[6], r[7] = 1, [], [], "InternalError: (falsified record)"
+        else:
+            raise core.MachineryError("unknown PV_C18_CORRUPT kind " + kind)
+    print(f"[C18] PV_C18_CORRUPT={kind}: {n} recorded cases falsified")
+
+
 def _codes(lines):
     return [[ord(ch) for ch in ln] for ln in lines]
 
@@ -82,9 +105,23 @@ def m_trailing_comment_split(case, clause, detail, finding):
     '''the break fell inside (or directly in front of) a trailing comment: an
     output line's comment ends in `&` and the next line starts as a
     continuation, which is therefore read as code / directive text'''
+    # the first difference is the statement/directive itself or its comment,
+    # and the output has at least as many logical lines as the input
     return (clause == "SameProgram" and bool(detail.get("ampInComment"))
-            and detail.get("kin") in ("stmt", "omp", "acc")
+            and detail.get("kin") in ("stmt", "omp", "acc", "cmt")
+            and detail.get("nout", 0) >= detail.get("nin", 0)
             and any("!" in ln.lstrip()[1:] for ln in case["in"]))
+
+
+def m_continued_line_comment_cut(case, clause, detail, finding):
+    '''input line `... & ! comment` (continued, with trailing comment) cut right
+    in front of the `!`: output `... & &` / `&! comment` ends the statement'''
+    return (clause == "SameProgram" and bool(detail.get("ampAmpComment"))
+            and not detail.get("ampInComment")
+            and detail.get("kin") == "stmt" and detail.get("kout") == "stmt"
+            and detail.get("nout") == detail.get("nin", 0) + 1
+            and any(re.search(r"&\s*!", ln) and len(ln) > case["limit"]
+                    for ln in case["in"]))
 
 
 def m_directive_operator_split(case, clause, detail, finding):
@@ -114,6 +151,7 @@ def m_no_break_point(case, clause, detail, finding):
 
 
 MATCHERS = {"trailing-comment-split": m_trailing_comment_split,
+            "continued-line-comment-cut": m_continued_line_comment_cut,
             "directive-operator-split": m_directive_operator_split,
             "no-break-point": m_no_break_point}
 
@@ -122,7 +160,8 @@ MATCHERS = {"trailing-comment-split": m_trailing_comment_split,
 def _tlc_batch(args):
     path, workers, timeout = args
     return core.run_tlc("Trace_FreeForm.tla", "Trace_FreeForm.cfg",
-                        env={"PV_CASES": path}, workers=workers, timeout=timeout)
+                        env={"PV_CASES": path}, workers=workers, timeout=timeout,
+                        heap="3g")
 
 
 def _validate(out, rows, fams, tmp, cov, nbatch, workers):
@@ -201,22 +240,35 @@ def run(tier):
            "divergence_samples": [], "outside_samples": []}
     # 1. design level
     cfg = "FreeForm_quick.cfg" if tier == "quick" else "FreeForm_thorough.cfg"
-    res = core.run_tlc("FreeForm.tla", cfg, check=False, coverage=(tier != "quick"),
-                       timeout=3000)
-    if res.invariant_violated or res.error:
-        raise core.MachineryError("FreeForm.tla does not satisfy its own invariants: "
-                                  + str(res.invariant_violated or res.error))
-    cov["states"] += res.distinct
-    cov["transitions"] += res.generated
-    cov["model_states"] = res.distinct
-    cov["model_depth"] = res.depth
+    if os.environ.get("PV_C18_SKIP_MODEL"):         # binding demos only
+        print("[C18] PV_C18_SKIP_MODEL: design-level model checking skipped")
+    else:
+        res = core.run_tlc("FreeForm.tla", cfg, check=False,
+                           coverage=(tier != "quick"), timeout=3000)
+        if res.invariant_violated or res.error:
+            raise core.MachineryError(
+                "FreeForm.tla does not satisfy its own invariants: "
+                + str(res.invariant_violated or res.error))
+        cov["states"] += res.distinct
+        cov["transitions"] += res.generated
+        cov["model_states"] = res.distinct
+        cov["model_depth"] = res.depth
+        if tier != "quick":
+            cov["model_action_coverage"] = {
+                k: v for k, v in res.coverage().items()
+                if k in ("Grow", "Start", "Emit", "Break", "Cut")}
     # 2. the real limiter on the generated family
     gen = c18_gen.generate(tier, core.seed())
+    stride = int(os.environ.get("PV_C18_STRIDE", "1"))    # demos only: subsample
+    if stride > 1:
+        gen = gen[::stride]
     work = [(i + 1, lines, limit) for i, (_, lines, limit, _) in enumerate(gen)]
     fams = {i + 1: g[0] for i, g in enumerate(gen)}
     step = max(1, len(work) // (core.NCPU * 2))
     chunks = [work[i:i + step] for i in range(0, len(work), step)]
     rows = [r for part in core.pool_map(_run_cases, chunks, chunksize=1) for r in part]
+    if os.environ.get("PV_C18_CORRUPT"):
+        _corrupt(rows, os.environ["PV_C18_CORRUPT"])
     tmp = core.mktemp("pv-c18-")
     try:
         nbatch = 4
